@@ -111,7 +111,8 @@ def run(ctx):
     n = 1500 if ctx.tier == "quick" else 20000
     t0 = time.time()
     rc0, trows, err0 = ctx.jsonl([binp, "table"])
-    rc, rows, err = ctx.jsonl([binp, "gen", "-seed", str(ctx.seed), "-n", str(n), "-tier", ctx.tier], timeout=1500)
+    rc, rows, err = ctx.jsonl([binp, "gen", "-seed", str(ctx.seed), "-n", str(n), "-tier", ctx.tier,
+                               "-in", os.path.join(ROOT, "corpus", "c13", "regress.txt")], timeout=1500)
     ph["harness"] = round(time.time() - t0, 1)
     summary = [r for r in rows if "summary" in r]
     rows = [r for r in rows if "s" in r]
@@ -132,7 +133,7 @@ def run(ctx):
         rcw, wrows, errw = ctx.jsonl([binp, "one", "-in", wf])
         os.remove(wf)
         rows += [r for r in wrows if "s" in r]
-    ctx.rule = ("strings: '' + all 256 one-byte strings + two-byte strings (quick: the 8*256 with first byte = seed%32 + 32j; "
+    ctx.rule = ("strings: pinned regression corpus corpus/c13/regress.txt (first, every seed and tier) + '' + all 256 one-byte strings + two-byte strings (quick: the 8*256 with first byte = seed%32 + 32j; "
                 "thorough: all 65536) + every string of length <= 3 over a 13-token critical alphabet (quotes, \\ ` $, hex digit, "
                 "control, newline, multi-byte, invalid byte) + the reserved-word list + random strings (3/8 from profiles aimed at the "
                 "\"..\", $'..' and '..' strategies) of 1..16 tokens biased to shell metacharacters, reserved words, multi-byte "
@@ -186,7 +187,7 @@ def run(ctx):
     short = [r for r in rows if len(r["s"]) <= 4]
     step = max(1, len(short) // (k // 2))
     off = ctx.seed % step
-    samp = short[off::step][:k // 2] + rnd[:k // 2]
+    samp = rows[:60] + short[off::step][:k // 2] + rnd[:k // 2]
     bads = set(m["s_hex"] for m in mism + rtbad)
     samp += [r for r in rows if r["s"] in bads][:50]
     prelude = PRELUDE % tree(ranges)
